@@ -862,6 +862,8 @@ def method_of(I, o, name):
                 return Builtin("bytearray.copy", lambda I: ByteArr(o.val))
             if name == "clear":
                 return Builtin("bytearray.clear", lambda I: setattr(o, "val", const(b"")))
+        if name == "rstrip":
+            return Builtin("bytes.rstrip", lambda I, chars=None: _rstrip(I, o, chars))
         if name == "startswith":
             return Builtin("bytes.startswith", lambda I, p: bytes_eq(bslice(to_bytes_val(o), 0, to_bytes_val(p).length), p) if True else None)
         if name == "index" or name == "find":
@@ -1020,6 +1022,28 @@ def _fromhex(I, s):
     if hasattr(s, "pyvc_fromhex"):
         return s.pyvc_fromhex(I)
     raise Unsupported("bytes.fromhex of symbolic string")
+
+
+def _rstrip(I, o, chars):
+    """b.rstrip(single byte): the prefix ending at the last byte different from it"""
+    v = to_bytes_val(o)
+    cb = to_bytes_val(chars).concrete() if chars is not None and isinstance(to_bytes_val(chars), BList) else None
+    if cb is None or len(cb) != 1:
+        raise Unsupported("rstrip with other than one concrete byte")
+    ch = cb[0]
+    c0 = v.concrete() if isinstance(v, BList) else None
+    if c0 is not None:
+        return const(c0.rstrip(cb))
+    z3 = core.z3
+    E = core.CUR
+    m = E.fresh_int("rstrip.len")
+    n = T(v.length)
+    E.add(z3.And(m >= 0, m <= n))
+    ms = SymInt(m)
+    E.add(z3.Or(m == 0, T(v.at(ms - 1)) != ch))
+    j = E.fresh_int("j")
+    E.add(z3.ForAll([j], z3.Implies(z3.And(j >= m, j < n), T(v.at(SymInt(j))) == ch)))
+    return bslice(v, 0, ms)
 
 
 def _decode(I, o):
